@@ -184,12 +184,26 @@ class SimConn(asyncio.Transport):
                 self.net.current_ctx = ctx
                 try:
                     h.on_data(self, data)
+                except BaseException as e:
+                    # an exception inside a simulated PEER is a bug of the harness, never behaviour of the code under test: it
+                    # must not vanish in the event loop's exception handler (a peer that silently stops answering looks like a
+                    # legitimate network failure and makes every oracle vacuous). SimEnv.run re-raises it.
+                    if self.net.peer_exception is None:
+                        import traceback
+                        self.net.peer_exception = ''.join(traceback.format_exception(type(e), e, e.__traceback__))[-3000:]
+                    raise
                 finally:
                     self.net.current_ctx = None
             elif kind == 'eof':
                 if not self.client_eof_seen:
                     self.client_eof_seen = True
-                    h.on_eof(self)
+                    try:
+                        h.on_eof(self)
+                    except BaseException as e:
+                        if self.net.peer_exception is None:
+                            import traceback
+                            self.net.peer_exception = ''.join(traceback.format_exception(type(e), e, e.__traceback__))[-3000:]
+                        raise
         if self._srv_q:
             self._srv_pump = self.loop.call_at(self._srv_q[0][0], self._pump_server)
 
@@ -359,6 +373,7 @@ class SimNet:
         self.listeners = {}
         self.conns = []
         self.stats = collections.Counter()
+        self.peer_exception = None      # traceback text of the first exception raised inside a simulated peer (harness bug)
         self.events = []            # scheduling-relevant events (for interleaving digest)
         self.write_context = None   # fn() -> object attached to each client write
         self.current_ctx = None
